@@ -3,7 +3,7 @@
 import traceback2
 import itertools
 
-from kernel.type import TVar, TConst, TFun, BoolType
+from kernel.type import TVar, TConst, TFun, BoolType, TypeMatchException
 from kernel import term
 from kernel.term import Term, Var, Const, And, Implies, Not, Eq, Forall
 from kernel.thm import Thm
@@ -99,6 +99,39 @@ def display_term(t):
         return '\n'.join(res)
     else:
         return res
+
+
+def types_overlap(T1, T2):
+    """Whether one of the two types is an instance of the other."""
+    for A, B in ((T1, T2), (T2, T1)):
+        try:
+            A.convert_stvar().match(B)
+            return True
+        except TypeMatchException:
+            pass
+    return False
+
+def term_tvars(t):
+    """Type variables (and schematic type variables) occurring in the term t."""
+    res = []
+    def rec(t):
+        if t.is_var() or t.is_svar() or t.is_const():
+            Ts = [t.T]
+        elif t.is_comb():
+            rec(t.fun)
+            rec(t.arg)
+            return
+        elif t.is_abs():
+            rec(t.body)
+            Ts = [t.var_T]
+        else:
+            return
+        for T in Ts:
+            for v in T.get_tvars() + T.get_stvars():
+                if v not in res:
+                    res.append(v)
+    rec(t)
+    return res
 
 
 class Constant(Item):
@@ -339,14 +372,31 @@ class Definition(Item):
             f, args = self.prop.lhs.strip_comb()
             if f != Const(self.name, self.type):
                 raise ItemException("Definition %s: wrong head of lhs" % self.name)
+            if not all(v.is_var() for v in args):
+                raise ItemException("Definition %s: arguments on lhs must be variables" % self.name)
+            rhs = self.prop.rhs
             lhs_vars = set(v.name for v in args)
-            rhs_vars = set(v.name for v in self.prop.rhs.get_vars())
+            rhs_vars = set(v.name for v in rhs.get_vars() + rhs.get_svars())
             if len(lhs_vars) != len(args):
                 raise ItemException("Definition %s: variables on lhs must be distinct" % self.name)
             if not rhs_vars.issubset(lhs_vars):
                 raise ItemException(
                     "Definition %s: extra variables in rhs: %s" % (
                         self.name, ", ".join(v for v in rhs_vars - lhs_vars)))
+
+            # rhs must not mention the constant being defined (for an overloaded
+            # constant: at a type overlapping the declared one)
+            for c in rhs.get_consts():
+                if c.name == self.name and (not theory.thy.is_overload_const(self.name) or
+                                            types_overlap(c.T, self.type)):
+                    raise ItemException("Definition %s: rhs mentions the constant being defined" % self.name)
+
+            # every type variable of rhs must occur in the type of the constant
+            extra_tvars = [T for T in term_tvars(rhs) if T not in self.type.get_tvars()]
+            if extra_tvars:
+                raise ItemException(
+                    "Definition %s: extra type variables in rhs: %s" % (
+                        self.name, ", ".join(str(T) for T in extra_tvars)))
 
         except Exception as error:
             self.type = data['type']
